@@ -29,7 +29,7 @@ CLAIMED = {
          'Trusts OpenSSL 3.0 EVP (AES, 3DES, ChaCha20-Poly1305) and bitwise reference code self-checked against published vectors; hardware variants only as present on this CPU (x86ni, sse2, pclmul, ctmulq present; pwr8 absent).'), 'C20': ('exploration', 'runtime monitoring: seeder fault injection through a guarded hook and a seeder-less library build; independent record decoder as sequence-number / nonce / IV monitor; cross-connection distinctness and equal-seed reproducibility checks',
          'Client and server resets are exercised with a failing seeder, no seeder (hook H1) and a build of the library with every system seeder disabled, with and without injected entropy (must refuse with BR_ERR_NO_RANDOM before emitting a byte, or proceed). Long sessions per protection mode and version with renegotiations: each protected record must authenticate under sequence number previous+1 from 0 after every key change in the independent record layer, and explicit IVs/nonces per (direction, key) are pairwise distinct. 200/1000 connections with distinct seeds have pairwise distinct randoms, session IDs, ECDHE points and encrypted premasters; equal seeds and schedules reproduce the wire bytes exactly.',
          'Uniqueness is observed on sampled sessions; randomness quality is not assessed.'), 'C16': ('exploration', 'runtime monitoring: sessions with threshold-sized buffers measured by an independent record decoder (exact plaintext length per record, hello extensions from the wire), MITM on the echoed extension, forged maximum-size / oversize records',
-         'For buffer sizes at each threshold (512..16384 plus the documented overheads) +-1 on each side independently and all three layouts, per protection mode and version, the harness checks on the real engines: the client requests exactly the length its buffers allow, an echo repeats the request, the negotiated flag equals the presence of the echo on the wire, a rewritten echo is refused, every record stays within 16384, the negotiated/requested length, the sender's own limit and its output buffer, and forged conformant records of exactly the advertised length (CBC with 255 padding bytes) or exactly filling the input buffer are accepted while one just beyond it yields an error without any memory error.',
+         'For buffer sizes at each threshold (512..16384 plus the documented overheads) +-1 on each side independently and all three layouts, per protection mode and version, the harness checks on the real engines: the client requests exactly the length its buffers allow, an echo repeats the request, the negotiated flag equals the presence of the echo on the wire, a rewritten echo is refused, every record stays within 16384, the negotiated/requested length, the sender own limit and its output buffer, and forged conformant records of exactly the advertised length (CBC with 255 padding bytes) or exactly filling the input buffer are accepted while one just beyond it yields an error without any memory error.',
          'Sampled buffer/mode combinations; the engine-split layout is checked for consistency only (split point not visible to the caller); OpenSSL as MFL-aware independent peer is exercised in C01 only.'),
 }
 
